@@ -89,10 +89,11 @@ fn presented(variant: &str, ds: &[String]) -> Option<Vec<String>> {
 }
 
 fn cred(args: &[&str]) -> String {
-  let doc: CoreDocument = match build_doc(args[1]) {
-    Some(d) => d,
-    None => return "bad-request".into(),
+  let docs: Vec<CoreDocument> = match args[1].split('/').map(build_doc).collect::<Option<Vec<_>>>() {
+    Some(d) if !d.is_empty() && (args[0] == "ver" || d.len() == 1) => d,
+    _ => return "bad-request".into(),
   };
+  let doc = docs[0].clone();
   let tok_s = match args[2].strip_prefix("T=") {
     Some(t) => t,
     None => return "bad-request".into(),
@@ -123,6 +124,15 @@ fn cred(args: &[&str]) -> String {
   let jwt = sign_compact(&hdr, &signed, sig);
   let sd = SdJwt::new(jwt, pres.clone(), None);
   let v = SdJwtCredentialValidator::with_signature_verifier(ToyVerifier, SdObjectDecoder::new_with_sha256());
+  if args[0] == "ver" {
+    return match v.verify_signature::<CoreDocument, Object>(&sd, &docs, &opts.verification_options) {
+      Ok(d) => format!("ok:{}", show_cred(&d.credential)),
+      Err(e) => {
+        let s = format!("{:?}", e);
+        format!("err:{}", if s.contains("sd-jwt claims decoding failed") { "sdDecode".to_string() } else if s.contains("sd-jwt claims could not be deserialized") { "claimsJson".to_string() } else { kind(&e) })
+      }
+    };
+  }
   match v.validate_credential::<CoreDocument, Object>(&sd, &doc, &opts, ff) {
     Ok(d) => {
       if std::env::var("HX_DEBUG").is_ok() {
@@ -178,7 +188,11 @@ fn kb(args: &[&str]) -> String {
     let base = r#"{"iss":"did:ex:i1","nbf":100,"sub":"did:ex:s2","vc":{"@context":"https://www.w3.org/2018/credentials/v1","type":"VerifiableCredential","credentialSubject":{}}}"#;
     let (signed, ds) = conceal(base, m.get("alg")? == "1")?;
     let jwt = sign_compact(r#"{"alg":"EdDSA","kid":"did:ex:i1#k0"}"#, &signed, 10);
-    let pres = vec![ds[0].clone(), ds[2].clone()];
+    // which of the three disclosures are presented (`pd:<mask>`, default degree + name)
+    let mask: u32 = m.get("pd").map(|x| x.parse().ok()).unwrap_or(Some(5))?;
+    let pres: Vec<String> = ds.iter().enumerate().filter(|(i, _)| mask >> i & 1 == 1).map(|(_, d)| d.clone()).collect();
+    // another disclosure set than the presented one
+    let other: Vec<String> = if mask == 7 { vec![ds[0].clone()] } else { ds.clone() };
     let hasher = Sha256Hasher::new();
     let digest_of = |d: &[String]| hasher.encoded_digest(&format!("{}~{}~", jwt, d.join("~")));
     // the key-binding JWT
@@ -213,7 +227,7 @@ fn kb(args: &[&str]) -> String {
         let c = kvc(cl, ',', '=');
         let h = match c.get("h")?.as_str() {
           "1" => digest_of(&pres),
-          "2" => digest_of(&ds),
+          "2" => digest_of(&other),
           _ => "AAAA".to_string(),
         };
         json!({"iat": oi(&c, "iat")??, "aud": format!("a{}", c.get("a")?), "nonce": format!("n{}", c.get("n")?), "sd_hash": h}).to_string()
@@ -248,12 +262,15 @@ fn kb(args: &[&str]) -> String {
       Ok(c) => {
         let h = if c.sd_hash == digest_of(&pres) {
           1
-        } else if c.sd_hash == digest_of(&ds) {
+        } else if c.sd_hash == digest_of(&other) {
           2
         } else {
           3
         };
         let line = format!("ok:h={};n={};a={};iat={}", h, c.nonce.trim_start_matches('n'), c.aud.trim_start_matches('a'), c.iat);
+        if h != 1 {
+          return Some(format!("{}\t#FAIL:kb-digest-not-bound:a key-binding JWT is accepted although its sd_hash is not the hash over the presented token and its {} disclosure(s)", line, pres.len()));
+        }
         match m.get("typ").map(|s| s.as_str()) {
           Some("s") => line,
           Some("k") if KeyBindingJwtClaims::KB_JWT_HEADER_TYP == " kb+jwt" => format!(
@@ -312,7 +329,7 @@ pub fn run(args: &[&str]) -> String {
     "bad-request".to_string()
   } else {
     match args[0] {
-      "cred" => cred(args),
+      "cred" | "ver" => cred(args),
       "kb" => kb(args),
       _ => "bad-request".into(),
     }
@@ -384,6 +401,27 @@ pub fn gen(thorough: bool, seed: u64, out: &mut impl Write) {
               }
               writeln!(out, "C16 kb {} K=p:{};alg:{};typ:{};kid:{};sig:{};cl:h={},n={},a={},iat=100 O=mid:~;sc:~;n:7;a:4;e:50;l:150;now:{}", hdoc, p, alg, typ, kid, sig, h, n, a, now).unwrap();
             }
+          }
+        }
+      }
+    }
+  }
+  // every presented disclosure subset (incl. none) x sd_hash over the presented / another / no disclosure set
+  for pd in 0..8u32 {
+    for h in [1u8, 2, 3] {
+      writeln!(out, "C16 kb {} K=p:1;alg:1;typ:k;kid:2.0.1;sig:21;pd:{};cl:h={},n=7,a=4,iat=100 O=mid:~;sc:~;n:7;a:4;e:50;l:150;now:{}", hdoc, pd, h, now).unwrap();
+    }
+  }
+  // verify_signature over several trusted issuers: the issuer claim must be the DID of the verifying key's document
+  let d1 = "D1;vm=1.0.1.11;a0=;a1=;a2=;a3=;a4=;sv=";
+  let d2 = "D2;vm=2.0.1.21,1.0.1.11;a0=;a1=;a2=;a3=;a4=;sv=";
+  let d1b = "D1;vm=1.0.1.31;a0=;a1=;a2=;a3=;a4=;sv=";
+  for docs in [format!("{}/{}", d1, d2), format!("{}/{}", d2, d1), format!("{}/{}", d1b, d1), d2.to_string(), format!("{}/{}/{}", d2, d1b, d1)] {
+    for kid in ["1.0.1", "2.0.1", "3.0.1"] {
+      for sig in [11u32, 21, 31] {
+        for iss in ["u1", "u2", "w1"] {
+          for v in ["d7", "d0", "F"] {
+            writeln!(out, "C16 ver {} {} {}", docs, tok(kid, "~", sig, &cl.replace("iss=u1", &format!("iss={}", iss)), 1, "~", v, true), opt("~", "~", 500, 200, "strict", 0)).unwrap();
           }
         }
       }
